@@ -129,6 +129,7 @@ def resOk (c : Case) (res : String) : Bool :=
     res == "mem" || res == "err" || res == "deadline" || (res == "ok" && resultBytes c.fam c.n < memLimitKB * 1024)
   else if c.fam.startsWith "grow-" then res == "mem" || res == "err" || res == "deadline"
   else if c.fam.startsWith "nest-" then res == "ok" || res == "depth" || res == "err" || res == "deadline" || res == "parse"
+  else if c.fam.startsWith "dag-" then res == "ok" || res == "deadline" || res == "mem" || res == "err"
   else false
 
 def timeOk (c : Case) (o : Obs) : Bool := c.t == 0 || o.wall ≤ c.t + slackMs
@@ -148,6 +149,9 @@ def klassOf (c : Case) (o : Obs) : String :=
   else if c.fam == "nest-block" || c.fam == "nest-lambda" then
     if o.exit == "killed" || o.exit == "fatal:oom" || (o.exit == "ok" && (!rssOk o || !timeOk c o) && resOk c o.res)
     then "nested-blocks-quadratic-formatted-text" else ""
+  else if c.fam.startsWith "dag-" then
+    if o.exit == "killed" || o.exit == "fatal:oom" || (o.exit == "ok" && (!rssOk o || !timeOk c o) && resOk c o.res)
+    then "shared-structure-exponential-traversal" else ""
   else if c.fam.startsWith "nest-" then
     if o.exit == "killed" || (o.exit == "ok" && !timeOk c o && resOk c o.res) then "deeply-nested-source-overruns-deadline" else ""
   else ""
